@@ -64,6 +64,12 @@ CLAIMS = {
          'Evaluator::extract_lwe (coefficient-form branch verified, NTT branch reduced to it by the verified recursion over an abstract inverse transform) returns c1 = X^(2n-term) * ct[1] in every RNS component and c0[j] = coefficient `term` of component j of ct[0], copies level / scale / correction factor, and refuses invalid or wrong-size inputs; '
          'LWECiphertext::assemble_lwe lays out a size-2 coefficient-form ciphertext with c0[j] as constant coefficient of component j (all other coefficients of polynomial 0 zero) and c1 as polynomial 1; a spec-level lemma composes the two (extract then assemble puts coefficient `term` at the constant position). '
          'Not covered: that the assembled ciphertext DECRYPTS to the coefficient (needs the ring identity <X^-t c1, s> and noise), field_trace_inplace, pack_lwe_ciphertexts (unsafe aliasing, key switching), divide_by_poly_modulus_degree_inplace (iterator closures).', '5 C19'),
+ 'C11': ('The data movement and index map of the batch encoder, with the plain-modulus NTT as an uninterpreted pair of functions: BatchEncoder::new builds matrix_reps_index_map with, for every i < N/2, map[i] = bitrev((3^i mod 2N - 1)/2) and map[i + N/2] = bitrev((2N - 3^i mod 2N - 1)/2) '
+         '(3^i mod 2N proved via the loop pos <- 3*pos & (2N-1), all intermediate values odd and in range), refuses CKKS contexts and contexts without set parameters; '
+         'encode writes value i at word map[i] (missing values zero), refuses over-long inputs, and returns the inverse NTT of exactly that slot matrix; decode returns word map[i] of the forward NTT of the zero-padded polynomial and refuses invalid or NTT-form plaintexts; '
+         'encode_polynomial reduces each coefficient modulo t; a spec-level lemma composes encode and decode into the identity GIVEN NTT inversion. '
+         'ASSUMED: the index map is a permutation of [0,N) (order of 3 modulo 2N and bijectivity of bit reversal are not proved), NTT inversion, u64::reverse_bits uninterpreted. '
+         'Not covered: that sums/products of encoded polynomials decode slot-wise (needs the NTT to be the evaluation map), the link between Galois elements and row rotation / column swap (same), values >= t given to encode (not reduced by the code; outside the property\'s domain Z_t).', '5 C11'),
  'C12': ('The integer entry point only: CKKSEncoder::encode_internal_i64_single is proved, for every i64 (negative values and values larger than a single prime included), every level and every chain, to produce the constant polynomial whose every coefficient of RNS component j is value mod q_j '
          '(so all components hold the residues of ONE integer), at scale 1 and on the requested level, and to refuse unknown levels, non-CKKS contexts and values whose bit count + 2 reaches the total modulus size. '
          'Not covered (the larger part of the property): every floating-point path (vector / single real / single complex / coefficient list, the three magnitude branches, FFT and root tables, decode) - Verus has no model of f64 arithmetic, rounding or casts, '
@@ -85,7 +91,7 @@ NOT_APPLICABLE = {
  'C18': 'agreement across n parties and all message delivery orders is a whole-history property; the per-call code sits behind iterator closures, context plumbing and serialization and no contract within reach connects it to "keys correspond to the sum of secret keys"',
 }
 
-PENDING = ['C07', 'C11', 'C20']
+PENDING = ['C07', 'C20']
 
 
 def main():
